@@ -138,23 +138,17 @@ static void need_arena(size_t n) {
 }
 
 /* ---------------- observers ---------------- */
+/* every U32 cell of the reserved table area [objectEnd, tableEnd) = hashTable ++ chainTable ++ hashTable3 */
 static void count_tables(const ZSTD_CCtx* c, ull* tb, ull* reach, ull* nz) {
     const ZSTD_matchState_t* const ms = &c->blockState.matchState;
-    const ZSTD_compressionParameters* const cp = &ms->cParams;
     U32 const bound = (U32)(ms->window.nextSrc - ms->window.base);
     U32 const low = ms->window.lowLimit;
-    size_t const hSize = (size_t)1 << cp->hashLog;
-    size_t const chainSize = ZSTD_allocateChainTable(cp->strategy, c->appliedParams.useRowMatchFinder, 0) ? ((size_t)1 << cp->chainLog) : 0;
-    size_t const h3Size = ms->hashLog3 ? ((size_t)1 << ms->hashLog3) : 0;
-    const U32* tabs[3]; size_t sizes[3]; int t;
-    tabs[0] = ms->hashTable; sizes[0] = hSize; tabs[1] = ms->chainTable; sizes[1] = chainSize; tabs[2] = ms->hashTable3; sizes[2] = h3Size;
+    const U32* const p = (const U32*)c->workspace.objectEnd;
+    size_t const n = (size_t)((const BYTE*)c->workspace.tableEnd - (const BYTE*)c->workspace.objectEnd) / sizeof(U32);
+    size_t i;
     *tb = 0; *reach = 0; *nz = 0;
-    for (t = 0; t < 3; t++) {
-        size_t i; const U32* const p = tabs[t];
-        if (p == NULL) continue;
-        if (!ZSTD_cwksp_owns_buffer(&c->workspace, p) || (const BYTE*)(p + sizes[t]) > (const BYTE*)c->workspace.workspaceEnd) { *tb = (ull)-1; return; }
-        for (i = 0; i < sizes[t]; i++) { U32 const v = p[i]; *tb += (v >= bound) && (v != 0); *reach += (v >= low); *nz += (v != 0); }
-    }
+    if (p == NULL) return;
+    for (i = 0; i < n; i++) { U32 const v = p[i]; *tb += (v >= bound) && (v != 0); *reach += (v >= low); *nz += (v != 0); }
 }
 
 static void dump(int ci, const char* why) {
@@ -271,7 +265,7 @@ static size_t do_stream(int ci, const BYTE* src, size_t len, BYTE* dst, size_t d
             out.dst = dst + opos; out.size = cap; out.pos = 0;
             r = ZSTD_compressStream2(c, &out, &in, dir);
             opos += out.pos;
-            if (first && dumpFirst) { dump(ci, (sz == 0 && dir == ZSTD_e_continue) ? "first0" : "first"); first = 0; }
+            if (first && dumpFirst) { dump(ci, ZSTD_isError(r) ? "firstfail" : (sz == 0 && dir == ZSTD_e_continue) ? "first0" : "first"); first = 0; }
             if (ZSTD_isError(r)) return r;
             if (++guard > 50000000) return ERROR(GENERIC);
             if (dir == ZSTD_e_continue) { if (in.pos == in.size) break; }
@@ -419,7 +413,7 @@ int main(void) {
                     curDictKind = 2; curDictOff = CDoff[d]; curDictLen = CDlen[d];
                     r = ZSTD_compressBegin_usingCDict(C[c], CD[d]);
                 }
-                dump(c, "begin");
+                dump(c, ZSTD_isError(r) ? "beginfail" : "begin");
                 if (!ZSTD_isError(r) && copyTo >= 0) {
                     r = ZSTD_copyCCtx(C[copyTo], C[c], pledge ? len : ZSTD_CONTENTSIZE_UNKNOWN);
                     dump(copyTo, "copied");
